@@ -1060,7 +1060,7 @@ def correspond(ctx):
                 "3 variables and 3 plates up to renaming (3038 / 37001 shapes), full elimination (+ a random eliminate set), "
                 "sizes fitted under the unrolling cap, six semirings in rotation; on 30% (thorough 50%) of these shapes also a copy "
                 "with other FACTOR KINDS of identical meaning: funsor.Constant over 1-3 of a factor's plates, Number, lazy "
-                "Binary (psp + sum_product / plate-at-a-time and random two-call splits); "
+                "Binary, and the SAME funsor object listed 2-3 times (duplicate factors) (psp + sum_product / plate-at-a-time and random two-call splits); "
                 "(1) every multiset of <= 3 factors over 3 variables and 2 plates up to renaming (1018 shapes), sizes 1-2, "
                 "with full elimination + 2 random eliminate sets (quick) / every eliminate set (thorough), random "
                 "semiring and data, partial_sum_product plus one other entry point each; (2) random graphs <= 5 "
